@@ -198,7 +198,7 @@ pub fn run(ctx: &mut Ctx) {
         ctx.count("empty_argument_vectors", 1);
         check_exec(ctx, &v, "empty-position");
     });
-    let n = ctx.n(3000, 20_000);
+    let n = ctx.n(3000, 60_000);
     ctx.family("random", n, |ctx, rng, i| {
         let nargs = rng.below(21);
         let mut v = vec![if rng.chance(300) { rand_word(rng, 12) } else { "prog".to_string() }];
@@ -219,9 +219,9 @@ pub fn run(ctx: &mut Ctx) {
         }
         check_exec(ctx, &v, "random");
     });
-    let nc = ctx.n(600, 5000);
+    let nc = ctx.n(600, 20_000);
     ctx.family("command-position", nc, |ctx, rng, _i| check_command_position(ctx, rng));
-    let np = ctx.n(400, 2000);
+    let np = ctx.n(400, 8000);
     ctx.family("pipelines", np, |ctx, rng, _i| {
         let n = rng.range(2, 5) as usize;
         let stages: Vec<Vec<String>> = (0..n).map(|_| (0..rng.below(4)).map(|_| rand_word(rng, 16)).collect()).collect();
